@@ -25,6 +25,11 @@ def candidates():
             if isinstance(n, ast.FunctionDef) and not n.name.startswith("__") and not n.name.startswith(("_print_", "_hprint")) and len(n.name) > 3:
                 if n.name.startswith("_") or not re.search(rf"(?<!\w){re.escape(n.name)}(?!\w)", outside):
                     names.add(n.name)
+    if "--attrs" in sys.argv:
+        # private instance attributes (self._x = ...) instead of functions
+        fnames = {n.name for t in src.values() for n in ast.walk(ast.parse(t)) if isinstance(n, ast.FunctionDef)}
+        names = {n.attr for t in src.values() for n in ast.walk(ast.parse(t)) if isinstance(n, ast.Attribute) and isinstance(n.ctx, ast.Store) and isinstance(n.value, ast.Name) and n.value.id == "self" and n.attr.startswith("_") and not n.attr.startswith("__")} - fnames
+        names = {n for n in names if not re.search(rf"(?<!\w){re.escape(n)}(?!\w)", outside)}
     # a name that also occurs inside a string constant is skipped: renaming it there would change behaviour
     return sorted(n for n in names - SKIP if not re.search(rf"(?<!\w){re.escape(n)}(?!\w)", blob))
 
